@@ -6,10 +6,12 @@ mod debug;
 mod det;
 mod ctrlauth;
 mod fb;
+mod format;
 mod resource;
 mod retain;
 mod hirdb;
 mod parse;
+mod rename;
 mod stbc;
 mod stcore;
 mod util;
@@ -26,6 +28,7 @@ fn main() {
         "det-child" => det::child(rest),
         "fb-gen" => fb::gen(rest),
         "fb-run" => fb::run(rest),
+        "format-gen" => format::gen(rest), "format-run" => format::run(rest),
         "ctrlauth-gen" => ctrlauth::gen(rest), "ctrlauth-run" => ctrlauth::run(rest),
         "resource-run" => resource::run(rest),
         "stcore-gen" => stcore::gen(rest),
@@ -38,6 +41,7 @@ fn main() {
         "hirdb-gen" => hirdb::gen(rest),
         "hirdb-run" => hirdb::run(rest),
         "parse-gen" => parse::gen(rest), "parse-run" => parse::run(rest),
+        "rename-gen" => rename::gen(rest), "rename-run" => rename::run(rest),
         "stbc-gen" => stbc::gen(rest), "stbc-run" => stbc::run(rest),
         "webide-gen" => webide::gen(rest), "webide-run" => webide::run(rest),
         _ => {
